@@ -17,34 +17,49 @@ func NewSerial() Workers {
 }
 
 type SerialJob struct {
-	once sync.Once
+	l    sync.Mutex
 	err  error
+	once sync.Once
+	done chan struct{}
 }
 
 func (*SerialWorkers) NewJob(_ int) (Job, error) {
-	return &SerialJob{}, nil
+	return &SerialJob{done: make(chan struct{})}, nil
 }
 
 func (*SerialWorkers) Stop() {}
 
 func (j *SerialJob) Go(f func() error) {
-	if j.err != nil {
+	j.l.Lock()
+	failed := j.err != nil
+	j.l.Unlock()
+	if failed {
 		return
 	}
 	if err := f(); err != nil {
-		j.once.Do(func() {
+		j.l.Lock()
+		if j.err == nil {
 			j.err = err
-		})
+		}
+		j.l.Unlock()
 	}
 }
 
-func (*SerialJob) Done(f func()) {
+// Done signals that no more tasks will be added; it may be called from another
+// goroutine than the one that waits (the batch verifier enqueues leftovers asynchronously).
+func (j *SerialJob) Done(f func()) {
 	if f != nil {
 		f()
 	}
+	j.once.Do(func() { close(j.done) })
 }
 
+// Wait blocks until [Done] was called, like the parallel job does: every task
+// has run by then.
 func (j *SerialJob) Wait() error {
+	<-j.done
+	j.l.Lock()
+	defer j.l.Unlock()
 	return j.err
 }
 
